@@ -63,12 +63,14 @@ fn explore(ctx: &Ctx, p: &Params, alphabet: &[(String, RawOp)], depth: usize, la
         }
         (h, eff, after_reset)
     };
-    let mut seen: HashMap<(u128, bool), usize> = HashMap::new();
+    // the expected size in effect is part of the oracle, hence part of the key (a reset that fails to change the
+    // real state must not be merged with the state the model expects)
+    let mut seen: HashMap<(u128, bool, Option<u64>), usize> = HashMap::new();
     let mut q: VecDeque<Vec<usize>> = VecDeque::new();
     let mut post_reset_fps: std::collections::HashSet<u128> = std::collections::HashSet::new();
     {
         let (h, _, _) = replay(&[]);
-        seen.insert((h.fingerprint(), true), 0);
+        seen.insert((h.fingerprint(), true, p.size), 0);
         q.push_back(vec![]);
         out.states += 1;
     }
@@ -110,12 +112,13 @@ fn explore(ctx: &Ctx, p: &Params, alphabet: &[(String, RawOp)], depth: usize, la
                 }
             }
             let now_reset = !matches!(op, RawOp::Dec(_));
+            let eff_next = if let RawOp::ResetSize(sz) = op { *sz } else { eff };
             let fp = h.fingerprint();
             if now_reset {
                 post_reset_fps.insert(fp);
             }
-            if next.len() <= depth && !seen.contains_key(&(fp, now_reset)) {
-                seen.insert((fp, now_reset), next.len());
+            if next.len() <= depth && !seen.contains_key(&(fp, now_reset, eff_next)) {
+                seen.insert((fp, now_reset, eff_next), next.len());
                 out.states += 1;
                 if next.len() < depth {
                     q.push_back(next);
@@ -131,7 +134,7 @@ fn explore(ctx: &Ctx, p: &Params, alphabet: &[(String, RawOp)], depth: usize, la
 
 pub fn run(tier: Tier) -> i32 {
     let ctx = Ctx::new("C14", "model_checking", tier);
-    let depth = tier.pick(4usize, 6usize);
+    let depth = tier.pick(6usize, 8usize);
     ctx.set_rule(&format!("E2: breadth-first search over call histories (depth <= {}) of a real raw::LzmaDecoder (3 parameter sets) and raw::Lzma2Decoder; operations: decompress(s) for s in an alphabet of streams whose result depends on leftover rep distances, automaton state, length coders or literal tables (streams starting with a short rep / rep2 / a matched literal, streams with other lc/lp/pb, chunks that inherit state), truncated / corrupt / size-mismatched streams, reset(None), reset(Some(size)) for 3 sizes. States are merged on a 128-bit fingerprint of every field of the decoder. Oracle on every decompress edge that directly follows a reset: verdict, output and bytes consumed equal those of a freshly constructed decoder with the same parameters and size in effect. post_reset_states = distinct decoder states observed right after a reset (1 per size in effect means reset is perfect for ALL follow-ups, not only the alphabet). distinct_nontrivial = reset-then-decompress comparisons made after at least one earlier decompress.", depth));
     ctx.assume("fingerprint hook covers every field of DecoderState / LzmaDecoder (hook lists them by name)");
     // ---- stream alphabet for the LZMA raw decoder
